@@ -26,7 +26,8 @@ pub enum Got {
 }
 
 impl Raw {
-    pub fn new(ws: MemWs) -> Self {
+    pub fn new(mut ws: MemWs) -> Self {
+        ws.auto_pong = false;
         Self { ws, seen: Vec::new() }
     }
 
